@@ -414,19 +414,24 @@ theorem read_iter_source_dispatch {ρ : Type} (sk : ρ → Nat → Except Rs.IoE
 open RbV.Thm.GenSrcIdxFa RbV.Thm.GenSrcIdxFaIter in
 /-- **From the translated constructor**: `read_into_iter(idx, start, stop)` as written, then the translated `next` drained
 with the capacity that constructor asked for, yields exactly `seq[start..stop]` and no error item — for every well-formed
-file, every chunk schedule, every non-empty interval.  No capacity hypothesis is left. -/
+file, every chunk schedule, every interval `start ≤ stop ≤ len` (the empty one included: capacity 0, the iterator ends at
+once).  No capacity hypothesis is left. -/
 theorem read_iter_source_correct (file seq : Bytes) (idx : Idx) (start stop fuel calls : Nat) (sched : Nat → Nat) (s0 : St)
-    (wf : WellFormed file idx seq) (h1 : start < stop) (h2 : stop ≤ idx.len) (hs : ∀ k, 0 < sched k)
+    (wf : WellFormed file idx seq) (h1 : start ≤ stop) (h2 : stop ≤ idx.len) (hs : ∀ k, 0 < sched k)
     (h64 : idx.lB < 2 ^ 64) (hstop : stop < 2 ^ 64) (hfit : pos idx start < 2 ^ 64)
     (hfuel : file.length + 1 < fuel) (hcalls : stop - start + 2 ≤ calls) :
     ∃ it, Gen.SrcIdxFaIter.readIntoIter (seekOp file) s0 (toRec idx) start stop = .ok (.ok it) ∧
       drainIt sched it.buf_cap idx fuel calls (it.reader, it.bases_left, it.line_offset, it.buf, it.buf_idx) =
         .ok (okItems ((seq.drop start).take (stop - start))) := by
-  obtain ⟨it, hit, hok⟩ := (readIntoIter_spec file idx start stop s0 wf.lb_pos hfit).2.2 h2 (Nat.le_of_lt h1)
+  obtain ⟨it, hit, hok⟩ := (readIntoIter_spec file idx start stop s0 wf.lb_pos hfit).2.2 h2 h1
   refine ⟨it, hit, ?_⟩
   rw [hok.reader, hok.bases, hok.lo, hok.buf, hok.bidx]
-  exact iter_source_correct file seq idx it.buf_cap start stop fuel calls sched wf (Nat.le_of_lt h1) h2 hs h64 (hok.cap h1)
-    hstop hfuel hcalls
+  by_cases hlt : start < stop
+  · exact iter_source_correct file seq idx it.buf_cap start stop fuel calls sched wf h1 h2 hs h64 (hok.cap hlt)
+      hstop hfuel hcalls
+  · have he : stop - start = 0 := by omega
+    rw [he, drainIt_empty sched _ idx fuel calls (by omega)]
+    simp [okItems]
 
 /-! ## Non-vacuity: a concrete two-line record, LF and CRLF -/
 
